@@ -111,6 +111,22 @@ def run(tier, seed):
             extra = [p for p in tab if not (0 <= p <= l)]
             if extra:
                 ck.violation({"clause": "unknown_p", "l": l, "N": Ntr}, "table has p outside 0..l: %s" % extra, {})
+            # ndarray form (numpy semantics without compiling): `x *= y` on an array works in place, so a table whose power prelude
+            # aliases two names (e8 = e6; e8 *= e2) is right for floats and series objects and wrong for arrays
+            es_a = np.array([0.0, 0.03, 0.06, 0.08, 0.1])
+            keep_a = es_a.copy()
+            ta = pyf(fn)(es_a)
+            if not np.array_equal(es_a, keep_a):
+                ck.violation({"clause": "inputs_unmodified", "l": l, "N": Ntr}, "l=%d N=%d: the table modified the caller's eccentricity array" % (l, Ntr), {})
+            for p in tab:
+                for q in tab[p]:
+                    gc = tab[p][q].c if isinstance(tab[p][q], HX.P) else [Fr(tab[p][q])]
+                    pv = sum(float(c) * keep_a ** i for i, c in enumerate(gc))
+                    av = np.asarray(ta[p][q], dtype=float) * np.ones_like(keep_a)
+                    if np.max(np.abs(av - pv) / np.maximum(1.0, np.abs(pv))) > 1e-9:
+                        ck.violation({"clause": "array_vs_polynomial", "l": l, "N": Ntr, "p": p, "q": q},
+                                     "l=%d N=%d (p,q)=(%d,%d): evaluated on an ndarray the table gives %s, its own polynomial %s" % (l, Ntr, p, q, av.tolist(), pv.tolist()), {})
+                        break
             # the jitted table agrees numerically with its own polynomial
             if l in jit_degrees and (Ntr in (2, 10, 20) or tier == "thorough"):
                 # closed-form entries ((1 - e^2)^-k factors, k up to 11 at l = 7) are only expanded to e^22 in the reference: at e = 0.2 the
